@@ -20,9 +20,10 @@
   * `no_collapse_of_nonpos`   no collapse while all rates ≤ 0 (e.g. zero moments) and random numbers ≥ 0
   * `collapseStep_spec`, `collapse_gives_pure_active`   a collapse resets ρ to the pure ACTIVE state (valid, idempotent,
                               trace one) and zeroes both moments; without an event nothing changes
-  Partial (DESIGN §7 C11): Hermiticity of the exponential momentum-moment integrator (`delPexp`, a three-index
-  expression) is not closed in Lean — it is checked on the implementation; agreement of the two integrators as dt→0
-  is an asymptotic statement, tested numerically.
+  * `poissonScaleC_conj`, `ff_hermitian`, `delP_exp_hermitian`   the exponential momentum-moment integrator preserves Hermiticity
+                              too (the source term with the three-index Poisson factors is Hermitian because the scale
+                              function commutes with complex conjugation)
+  Partial (DESIGN §7 C11): agreement of the two integrators as dt→0 is an asymptotic statement, tested numerically.
 -/
 import MudProof.Properties.C02
 import MudModel.AFSSH
@@ -193,6 +194,86 @@ theorem delR_exp_hermitian (eps : Fin N → ℝ) (co R P : Tab (Cx ℝ) N N) (dt
   simp only [conjTranspose_apply, toM_apply, Tab.get_ofFn, toC_add, toC_smul] at h1 h2 ⊢
   rw [star_add, star_mul', h1, h2]
   simp
+
+/-! ### the exponential momentum-moment integrator (`advance_delP`, exp branch) -/
+
+theorem cx_ext {a b : Cx ℝ} (h1 : a.re = b.re) (h2 : a.im = b.im) : a = b := by
+  cases a; cases b; simp_all
+
+/-- `poisson_prob_scale` commutes with complex conjugation (series and closed form have real coefficients; the switch
+    depends on |x| only) -/
+theorem poissonScaleC_conj (z : Cx ℝ) : poissonScaleC (Cx.conj z) = Cx.conj (poissonScaleC z) := by
+  have hs : poissonSmallC (Cx.conj z) = poissonSmallC z := by
+    simp [poissonSmallC, Cx.conj, Cx.normSq]
+  unfold poissonScaleC
+  rw [hs]
+  split
+  · apply cx_ext <;> simp [poissonSeriesC, Cx.conj, Cx.divR] <;> ring
+  · apply cx_ext <;>
+      simp [poissonClosedC, Cx.div, Cx.expm1, Cx.conj, Real.sin_neg, Real.cos_neg, neg_div] <;> ring
+
+/-- the source term of the exponential momentum-moment integrator is Hermitian: abstract form -/
+theorem ff_hermitian (D R : Matrix (Fin N) (Fin N) ℂ) (hD : D.IsHermitian) (hR : R.IsHermitian)
+    (p : Fin N → Fin N → Fin N → ℂ) (c : ℝ) :
+    (Matrix.of (fun i j => (c : ℂ) * ((∑ k, D i k * R k j * p j i k) + ∑ k, R i k * D k j * star (p i j k)))).IsHermitian := by
+  ext i j
+  have hD' : ∀ a b, star (D a b) = D b a := fun a b => by
+    have := congrFun (congrFun hD.eq b) a; simpa [conjTranspose_apply] using this
+  have hR' : ∀ a b, star (R a b) = R b a := fun a b => by
+    have := congrFun (congrFun hR.eq b) a; simpa [conjTranspose_apply] using this
+  simp only [conjTranspose_apply, of_apply, star_mul', star_add, star_sum, star_star, hD', hR']
+  have hc : star (c : ℂ) = (c : ℂ) := by simp
+  rw [hc, add_comm]
+  congr 2
+  · apply Finset.sum_congr rfl; intro k _; ring
+  · apply Finset.sum_congr rfl; intro k _; ring
+
+/-- **`advance_delP`, exp branch** preserves Hermiticity: Hermitian δP and ρ, symmetric δF (any `co`, any `dt`) -/
+theorem delP_exp_hermitian (eps : Fin N → ℝ) (co P rho : Tab (Cx ℝ) N N) (dF : Tab ℝ N N) (dt : ℝ)
+    (hP : (toM P).IsHermitian) (hρ : (toM rho).IsHermitian) (hF : ∀ i j, dF.get i j = dF.get j i) :
+    (toM (delPexp eps co dt P dF rho)).IsHermitian := by
+  unfold delPexp
+  simp only
+  rw [toM_mmul, toM_mmul, toM_mH]
+  apply C02.conj_hermitian
+  rw [toM_mhad]
+  apply hadamard_phase_hermitian _ _ _ (expiht_hermitian eps dt)
+  rw [toM_madd]
+  apply Matrix.IsHermitian.add
+  · rw [toM_mmul, toM_mmul, toM_mH]
+    have := C02.conj_hermitian (toM co)ᴴ (toM P) hP
+    rwa [conjTranspose_conjTranspose] at this
+  · -- the source term
+    have hDF : (toM (mofReal dF)).IsHermitian := by
+      ext i j
+      simp only [conjTranspose_apply, toM_mofReal, toMR, of_apply]
+      rw [hF j i]; simp
+    have hD : (toM (mmul (mmul (mH co) (mofReal dF)) co)).IsHermitian := by
+      rw [toM_mmul, toM_mmul, toM_mH]
+      have := C02.conj_hermitian (toM co)ᴴ _ hDF
+      rwa [conjTranspose_conjTranspose] at this
+    have hR : (toM (mmul (mmul (mH co) rho) co)).IsHermitian := by
+      rw [toM_mmul, toM_mmul, toM_mH]
+      have := C02.conj_hermitian (toM co)ᴴ _ hρ
+      rwa [conjTranspose_conjTranspose] at this
+    have key := ff_hermitian _ _ hD hR
+      (fun i j k => toC (Cx.smul dt (-(poissonScaleC (⟨0, (2 * eps i - (eps j + eps k)) * dt⟩ : Cx ℝ))))) (-(1 / 2))
+    convert key using 2
+    ext i j
+    simp only [toM_apply, Tab.get_ofFn, toC_smul, toC_add, toC_vsum, toC_mul, of_apply, lit_real, frac_real]
+    have hconj : ∀ a b c : Fin N,
+        (dt : ℂ) * toC (-(poissonScaleC (⟨0, -(((2 : ℕ) : ℝ) * eps a - (eps b + eps c)) * dt⟩ : Cx ℝ)))
+          = star ((dt : ℂ) * toC (-(poissonScaleC (⟨0, (2 * eps a - (eps b + eps c)) * dt⟩ : Cx ℝ)))) := by
+      intro a b c
+      have e : (⟨0, -(((2 : ℕ) : ℝ) * eps a - (eps b + eps c)) * dt⟩ : Cx ℝ) = Cx.conj ⟨0, (2 * eps a - (eps b + eps c)) * dt⟩ := by
+        apply cx_ext
+        · simp [Cx.conj]
+        · simp [Cx.conj]; ring
+      rw [e, poissonScaleC_conj]
+      simp only [toC_neg, toC_conj, star_mul', star_neg]
+      simp
+    simp only [hconj]
+    norm_num
 
 /-- after a collapse the moments are identically zero -/
 theorem collapse_moments_zero (n : ℕ) : ∀ (x : Fin n) (i j : Fin N),
